@@ -1,2 +1,345 @@
-//! World extension: competition flows (instruction builders over the real program).
+//! World extension: competition flows (instruction builders over the real competition program).
+//!
+//! Two ways to drive the callbacks:
+//! * *direct*: the instruction is sent to the competition program with the store's callback-authority
+//!   PDA listed as a transaction signer (harness shortcut: on chain only the store can sign for it) and
+//!   a fabricated `TradeData` account (owned by the store program) as the trade event;
+//! * *real orders*: `create_order_v2` / `execute_*_order_v2` / `close_order_v2` of the store with the
+//!   callback accounts pointing at the competition program — the store performs the CPI itself.
 use super::*;
+use anchor_lang::{AccountDeserialize, Discriminator};
+use anchor_spl::associated_token;
+use gmsol_competition as comp;
+use gmsol_store::events::TradeData;
+
+pub const COMP_PID: Pubkey = comp::ID;
+
+/// `ActionKind::Order` of the callback interface.
+pub const ACTION_KIND_ORDER: u8 = 3;
+
+/// The store program's callback-authority PDA and bump.
+pub fn callback_authority() -> (Pubkey, u8) {
+    Pubkey::find_program_address(&[gmsol_callback::CALLBACK_AUTHORITY_SEED], &STORE_PID)
+}
+
+pub fn competition_pda(payer: &Pubkey, start_time: i64) -> Pubkey {
+    Pubkey::find_program_address(&[comp::states::COMPETITION_SEED, payer.as_ref(), &start_time.to_le_bytes()], &COMP_PID).0
+}
+
+pub fn participant_pda(competition: &Pubkey, trader: &Pubkey) -> Pubkey {
+    Pubkey::find_program_address(&[comp::states::PARTICIPANT_SEED, competition.as_ref(), trader.as_ref()], &COMP_PID).0
+}
+
+#[derive(Clone, Debug)]
+pub struct CompParams {
+    pub start_time: i64,
+    pub end_time: i64,
+    pub volume_threshold: u128,
+    pub extension_duration: i64,
+    pub extension_cap: i64,
+    pub only_count_increase: bool,
+    pub volume_merge_window: i64,
+}
+
+pub fn comp_load<T: AccountDeserialize>(svm: &Svm, key: &Pubkey) -> Option<T> {
+    let a = svm.get(key)?;
+    if a.owner != COMP_PID {
+        return None;
+    }
+    T::try_deserialize(&mut &a.data[..]).ok()
+}
+
+pub fn comp_initialize_ix(payer: Pubkey, p: &CompParams) -> Instruction {
+    ix(
+        COMP_PID,
+        comp::accounts::InitializeCompetition {
+            payer,
+            competition: competition_pda(&payer, p.start_time),
+            system_program: system_program::ID,
+        },
+        comp::instruction::InitializeCompetition {
+            start_time: p.start_time,
+            end_time: p.end_time,
+            volume_threshold: p.volume_threshold,
+            extension_duration: p.extension_duration,
+            extension_cap: p.extension_cap,
+            only_count_increase: p.only_count_increase,
+            volume_merge_window: p.volume_merge_window,
+        },
+    )
+}
+
+pub fn comp_create_participant_ix(payer: Pubkey, competition: Pubkey, trader: Pubkey) -> Instruction {
+    ix(
+        COMP_PID,
+        comp::accounts::CreateParticipantIdempotent {
+            payer,
+            competition,
+            participant: participant_pda(&competition, &trader),
+            trader,
+            system_program: system_program::ID,
+        },
+        comp::instruction::CreateParticipantIdempotent {},
+    )
+}
+
+pub fn comp_close_participant_ix(trader: Pubkey, competition: Pubkey) -> Instruction {
+    ix(
+        COMP_PID,
+        comp::accounts::CloseParticipant { trader, competition, participant: participant_pda(&competition, &trader) },
+        comp::instruction::CloseParticipant {},
+    )
+}
+
+/// Arguments common to all callbacks, as the store passes them.
+#[derive(Clone, Copy, Debug)]
+pub struct CallbackArgs {
+    pub authority: Pubkey,
+    pub authority_bump: u8,
+    pub action_kind: u8,
+    pub callback_version: u8,
+    pub extra_account_count: u8,
+}
+
+impl CallbackArgs {
+    /// What the store sends for orders.
+    pub fn store_like(extra_account_count: u8) -> Self {
+        let (authority, authority_bump) = callback_authority();
+        Self { authority, authority_bump, action_kind: ACTION_KIND_ORDER, callback_version: 0, extra_account_count }
+    }
+}
+
+pub fn comp_on_created_ix(a: &CallbackArgs, competition: Pubkey, participant: Pubkey, trader: Pubkey, action: Pubkey, position: Pubkey) -> Instruction {
+    let mut i = ix(
+        COMP_PID,
+        comp::accounts::OnCreated { authority: a.authority, competition, participant, trader, action },
+        comp::instruction::OnCreated {
+            authority_bump: a.authority_bump,
+            action_kind: a.action_kind,
+            callback_version: a.callback_version,
+            extra_account_count: a.extra_account_count,
+        },
+    );
+    i.accounts.push(AccountMeta::new_readonly(position, false));
+    i
+}
+
+/// `on_updated` (`closed == false`) / `on_closed` (`closed == true`).
+pub fn comp_on_other_ix(a: &CallbackArgs, closed: bool, competition: Pubkey, participant: Pubkey, trader: Pubkey, action: Pubkey) -> Instruction {
+    let accounts = comp::accounts::OnCallback { authority: a.authority, competition, participant, trader, action };
+    if closed {
+        ix(
+            COMP_PID,
+            accounts,
+            comp::instruction::OnClosed {
+                _authority_bump: a.authority_bump,
+                _action_kind: a.action_kind,
+                _callback_version: a.callback_version,
+                _extra_account_count: a.extra_account_count,
+            },
+        )
+    } else {
+        ix(
+            COMP_PID,
+            accounts,
+            comp::instruction::OnUpdated {
+                _authority_bump: a.authority_bump,
+                _action_kind: a.action_kind,
+                _callback_version: a.callback_version,
+                _extra_account_count: a.extra_account_count,
+            },
+        )
+    }
+}
+
+/// `on_executed` with the account layout of the store's CPI: the two extra accounts are the position
+/// and the trade event (the competition program id stands for "none", as the store passes it).
+pub fn comp_on_executed_ix(
+    a: &CallbackArgs,
+    success: bool,
+    competition: Pubkey,
+    participant: Pubkey,
+    trader: Pubkey,
+    action: Pubkey,
+    position: Pubkey,
+    trade_event: Option<Pubkey>,
+) -> Instruction {
+    let mut i = ix(
+        COMP_PID,
+        comp::accounts::OnExecuted { authority: a.authority, competition, participant, trader, action, position, trade_event },
+        comp::instruction::OnExecuted {
+            authority_bump: a.authority_bump,
+            action_kind: a.action_kind,
+            callback_version: a.callback_version,
+            success,
+            extra_account_count: a.extra_account_count,
+        },
+    );
+    // The store passes `competition` / `participant` writable for every callback.
+    for m in i.accounts.iter_mut() {
+        if m.pubkey == competition || m.pubkey == participant {
+            m.is_writable = true;
+        }
+    }
+    i
+}
+
+/// Inject a fabricated trade-event account (owned by the store program, `TradeData` layout) carrying
+/// the given user and before / after position sizes.
+pub fn set_trade_data(svm: &mut Svm, key: Pubkey, user: Pubkey, before_size_in_usd: u128, after_size_in_usd: u128) {
+    let mut td: TradeData = bytemuck::Zeroable::zeroed();
+    td.user = user;
+    td.before.size_in_usd = before_size_in_usd;
+    td.after.size_in_usd = after_size_in_usd;
+    td.ts = svm.clock.unix_timestamp;
+    let mut data = Vec::with_capacity(8 + std::mem::size_of::<TradeData>());
+    data.extend_from_slice(TradeData::DISCRIMINATOR);
+    data.extend_from_slice(bytemuck::bytes_of(&td));
+    let lamports = svm.rent.minimum_balance(data.len());
+    svm.set_account(key, Account::new(lamports, data, STORE_PID));
+}
+
+/// Callback accounts of an order: `(program, shared data = competition, partitioned data = participant)`.
+#[derive(Clone, Copy, Debug)]
+pub struct OrderCallback {
+    pub program: Pubkey,
+    pub shared: Pubkey,
+    pub partitioned: Pubkey,
+}
+
+/// Replace the four `None` callback accounts (`[from, from + 4)`) of a store instruction built by the
+/// shared builders. Returns `false` if the layout is not the expected one (harness error).
+pub fn patch_callback_accounts(i: &mut Instruction, from: usize, cb: &OrderCallback, event_authority: &Pubkey) -> bool {
+    if i.accounts.len() < from + 6 {
+        return false;
+    }
+    let none = |m: &AccountMeta| m.pubkey == STORE_PID && !m.is_signer && !m.is_writable;
+    if !(from..from + 4).all(|k| none(&i.accounts[k])) || i.accounts[from + 4].pubkey != *event_authority || i.accounts[from + 5].pubkey != STORE_PID {
+        return false;
+    }
+    i.accounts[from] = AccountMeta::new_readonly(callback_authority().0, false);
+    i.accounts[from + 1] = AccountMeta::new_readonly(cb.program, false);
+    i.accounts[from + 2] = AccountMeta::new(cb.shared, false);
+    i.accounts[from + 3] = AccountMeta::new(cb.partitioned, false);
+    true
+}
+
+/// Index of the first callback account in `ExecuteIncreaseOrSwapOrderV2`, `ExecuteDecreaseOrderV2`
+/// and `CloseOrderV2` (verified at run time by `patch_callback_accounts`).
+pub const CALLBACK_ACCOUNTS_AT: usize = 24;
+
+impl World {
+    pub fn init_callback_authority(&mut self) -> TxResult {
+        let keeper = self.keeper;
+        self.send(
+            &[six(
+                sa::InitializeCallbackAuthority { payer: keeper, callback_authority: callback_authority().0, system_program: system_program::ID },
+                si::InitializeCallbackAuthority {},
+            )],
+            &[keeper],
+        )
+    }
+
+    /// `create_order_v2` for a position order with a callback (the store invokes `on_created`).
+    pub fn create_order_with_callback(
+        &mut self,
+        owner: Pubkey,
+        req: &exchange::OrderReq,
+        cb: &OrderCallback,
+        pre: &[Instruction],
+    ) -> std::result::Result<Pubkey, (TxError, TxMeta)> {
+        use exchange::OrderKind;
+        let m = self.markets[req.market].clone();
+        let store = self.store;
+        let nonce = self.next_nonce();
+        let order = pda::find_order_address(&store, &owner, &nonce, &STORE_PID).0;
+        let (long_mint, short_mint) = (self.tokens[m.long].mint, self.tokens[m.short].mint);
+        let collateral = if req.is_collateral_long { long_mint } else { short_mint };
+        let is_increase = matches!(req.kind, OrderKind::MarketIncrease | OrderKind::LimitIncrease);
+        let is_decrease = matches!(req.kind, OrderKind::MarketDecrease | OrderKind::LimitDecrease | OrderKind::StopLossDecrease);
+        if !(is_increase || is_decrease) {
+            return Err((TxError::Runtime("harness: only position orders".into()), TxMeta::default()));
+        }
+        let params = self.order_params(req);
+        let initial_collateral_token = is_increase.then_some(req.initial_collateral_token.unwrap_or(collateral));
+        let final_output_token = is_decrease.then_some(req.final_output_token.unwrap_or(collateral));
+        let position = self.position_pda(&owner, req.market, req.is_long, req.is_collateral_long);
+        let mut ixs = pre.to_vec();
+        ixs.push(self.prepare_user_ix(owner));
+        let mut escrow_tokens: Vec<Pubkey> = vec![];
+        for t in initial_collateral_token.iter().chain(final_output_token.iter()).chain([long_mint, short_mint].iter()) {
+            if !escrow_tokens.contains(t) {
+                escrow_tokens.push(*t);
+            }
+        }
+        for t in &escrow_tokens {
+            ixs.push(self.prepare_ata_ix(owner, order, *t));
+        }
+        for t in final_output_token.iter().chain([long_mint, short_mint].iter()) {
+            ixs.push(self.prepare_ata_ix(owner, owner, *t));
+        }
+        if is_increase {
+            ixs.push(six(
+                sa::PreparePosition { owner, store, market: m.market, position, system_program: system_program::ID },
+                si::PreparePosition { params: params.clone() },
+            ));
+        }
+        ixs.push(six(
+            sa::CreateOrderV2 {
+                owner,
+                receiver: owner,
+                store,
+                market: m.market,
+                user: self.user_pda(&owner),
+                order,
+                position: Some(position),
+                initial_collateral_token,
+                final_output_token: final_output_token.unwrap_or(collateral),
+                long_token: Some(long_mint),
+                short_token: Some(short_mint),
+                initial_collateral_token_escrow: initial_collateral_token.map(|t| token::ata(&order, &t)),
+                final_output_token_escrow: final_output_token.map(|t| token::ata(&order, &t)),
+                long_token_escrow: Some(token::ata(&order, &long_mint)),
+                short_token_escrow: Some(token::ata(&order, &short_mint)),
+                initial_collateral_token_source: initial_collateral_token.map(|t| token::ata(&owner, &t)),
+                system_program: system_program::ID,
+                token_program: spl_token::ID,
+                associated_token_program: associated_token::ID,
+                callback_authority: Some(callback_authority().0),
+                callback_program: Some(cb.program),
+                callback_shared_data_account: Some(cb.shared),
+                callback_partitioned_data_account: Some(cb.partitioned),
+                event_authority: self.event_authority(),
+                program: STORE_PID,
+            },
+            si::CreateOrderV2 { nonce, params, callback_version: Some(0) },
+        ));
+        self.send(&ixs, &[owner]).map(|_| order)
+    }
+
+    /// Execute an order created with a callback (the store invokes `on_executed`).
+    pub fn execute_order_with_callback(&mut self, order: Pubkey, cb: &OrderCallback, throw_on_execution_error: bool) -> TxResult {
+        let keeper = self.keeper;
+        let Some(mut ixs) = self.execute_order_ixs(keeper, order, throw_on_execution_error) else {
+            return Err((TxError::Runtime("harness: order not found / not decodable".into()), TxMeta::default()));
+        };
+        let ea = self.event_authority();
+        let last = ixs.last_mut().expect("exec ix");
+        if !patch_callback_accounts(last, CALLBACK_ACCOUNTS_AT, cb, &ea) {
+            return Err((TxError::Runtime("harness: unexpected execute-order account layout".into()), TxMeta::default()));
+        }
+        self.send(&ixs, &[keeper])
+    }
+
+    /// Close an order created with a callback (the store invokes `on_closed`).
+    pub fn close_order_with_callback(&mut self, executor: Pubkey, order: Pubkey, cb: &OrderCallback) -> TxResult {
+        let Some(mut i) = self.close_order_ix(executor, order) else {
+            return Err((TxError::Runtime("harness: order not found".into()), TxMeta::default()));
+        };
+        let ea = self.event_authority();
+        if !patch_callback_accounts(&mut i, CALLBACK_ACCOUNTS_AT, cb, &ea) {
+            return Err((TxError::Runtime("harness: unexpected close-order account layout".into()), TxMeta::default()));
+        }
+        self.send(&[i], &[executor])
+    }
+}
